@@ -309,7 +309,7 @@ def lan_inv(lan):
 
 contract(LANC + "._read",
          params={"self": "obj:" + LANC, "timeout": "int[0,60]"},
-         bind_kwargs=["timeout"],
+         bind_kwargs=["timeout"], defaults={"timeout": "2"},
          requires=["self._protocol is not None", "lan_inv(self)"],
          rtype="bytes",
          modifies=["self._protocol._queue"],
@@ -357,3 +357,75 @@ contract(LANC + ".authenticate",
 
 def all_handshakes(T, token):
     return all(len(p) >= 8 and p[:2] == b"\x83\x70" and (p[5] & 0xF) == 0 and p[8:] == token for p in T)
+
+
+def is_data_packet_for(p, proto, frame_packet):
+    """p is an encrypted request whose plaintext carries frame_packet, under proto's session key"""
+    return (len(p) >= 40 and p[:2] == b"\x83\x70" and (p[5] & 0xF) == 6 and proto._local_key is not None
+            and aes_cbc_dec(proto._local_key, p[6:-32])[2:2 + len(frame_packet)] == frame_packet)
+
+
+contract(LANC + ".send",
+         params={"self": "obj:" + LANC, "data": "bytes", "retries": "int[1,8]"},
+         requires=["lan_inv(self)", "len(data) <= 60000"],
+         cancellation=True,
+         modifies=["self._token", "self._key", "self._protocol", "self._protocol_version", "self._connection_expiration", "self._protocol.*"],
+         let={"old_retries": "retries"},
+         raises={LAN + "ProtocolError": {"post": {"recoverable": "lan_inv(self)"}},
+                 "builtins.TimeoutError": {"post": {"recoverable": "lan_inv(self)"}},
+                 "asyncio.CancelledError": {"post": {"recoverable": "lan_inv(self)"}}},
+         ensures={"recoverable": "lan_inv(self)",
+                  "connected": "self._protocol is not None",
+                  "got_a_response": "len(result) >= 1",
+                  "v3_authenticated_before_data": "implies(isinstance(self._protocol, _LanProtocolV3), self._protocol._local_key is not None)",
+                  "transmitted_at_least_once_at_most_retries": "1 <= final('n') + 1 <= old_retries"},
+         loops={"0": {"havoc": {"responses": "list:bytes"}},
+                "1": {"ghost_init": {"n": "0"}, "havoc": {"n": "int[0,8]", "responses": "list:bytes"},
+                      "modifies": ["self._protocol._packet_id", "self._protocol._queue"],
+                      "invariant": ["n == old_retries - retries", "1 <= retries", "lan_inv(self)", "self._protocol is not None",
+                                    "implies(isinstance(self._protocol, _LanProtocolV3), self._protocol._local_key is not None)"],
+                      "ghost_step": {"n": "pre(n) + 1"},
+                      "step_hints": {"one_transmission_per_iteration": "len(events('tx')) == pre(len(events('tx'))) + 1"},
+                      "variant": "retries"},
+                "2": {"havoc": {"responses": "list:bytes"}}})
+
+
+# ---- small LAN helpers by contract (keeps LAN.send's paths few) -------------------------------------------------------------
+from datetime import datetime, timezone
+
+
+def transport_alive(p):
+    return p._transport is not None and not p._transport.is_closing()
+
+
+def alive_spec(lan):
+    return (lan._protocol is not None and transport_alive(lan._protocol)
+            and not (lan._connection_expiration is not None and datetime.now(timezone.utc) > lan._connection_expiration))
+
+
+def authenticated_spec(p):
+    return (p._local_key is not None and p._local_key_expiration is not None
+            and not (datetime.now(timezone.utc) > p._local_key_expiration))
+
+
+contract(LAN + "_LanProtocol.alive", params={"self": "sub:" + LAN + "_LanProtocol"}, returns="transport_alive(self)", raises={})
+contract(V3 + ".authenticated", params={"self": "obj:" + V3}, returns="authenticated_spec(self)", raises={})
+contract(LANC + "._alive", params={"self": "obj:" + LANC}, returns="alive_spec(self)", raises={})
+
+contract(LANC + "._disconnect",
+         params={"self": "obj:" + LANC},
+         requires=["lan_inv(self)"],
+         assigns={"self._protocol": "None"},
+         raises={},
+         ensures={"closed": "implies(old(self._protocol) is not None, len(events('closed')) == 1)"})
+
+contract(LANC + "._connect",
+         params={"self": "obj:" + LANC},
+         cancellation=True,
+         modifies=["self._protocol", "self._connection_expiration"],
+         raises={"builtins.TimeoutError": {"modifies": []}, LAN + "ProtocolError": {"modifies": []}, "asyncio.CancelledError": {"modifies": []}},
+         ensures={"connected": "self._protocol is not None and self._protocol._transport is not None and transport_alive(self._protocol)",
+                  "class_by_version": "isinstance(self._protocol, _LanProtocolV3) == (self._protocol_version == 3)",
+                  "fresh_v3_session": "implies(isinstance(self._protocol, _LanProtocolV3), self._protocol._local_key is None and self._protocol._local_key_expiration is None and self._protocol._packet_id == 0)",
+                  "lifetime": "implies(self._max_connection_lifetime is None, self._connection_expiration == old(self._connection_expiration))",
+                  "not_expired_yet": "implies(self._max_connection_lifetime is not None and self._max_connection_lifetime.total_seconds() > 0, alive_spec(self))"})
